@@ -1,3 +1,4 @@
 pub mod gen;
 pub mod ledger;
 pub mod pair;
+pub mod wiremodel;
